@@ -361,6 +361,11 @@ def input_model_xml(tree):
     return _wrap(body)
 
 
+def multi_output_parts(v):
+    """the value is a context of two or more entries with distinct names: a decision service can assemble it from several output decisions"""
+    return isinstance(v, dict) and "c" in v and len(v["c"]) >= 2 and len({n for n, _ in v["c"]}) == len(v["c"])
+
+
 def output_model_xml(tree, values):
     """For value k: decision `Raw<k>` (untyped, literal of the value: shows what the logic produced),
     decision `Out<k>` (same literal, variable typed by the tree), decision service `Svc<k>` (variable
@@ -379,6 +384,16 @@ def output_model_xml(tree, values):
             '<decisionService name="Svc%d" id="_svc%d"><variable name="Svc%d" typeRef="%s"/><outputDecision href="#_raw%d"/></decisionService>'
             % (k, k, k, type_ref, k)
         )
+        # `MSvc<k>`: the same value assembled by a decision service from SEVERAL output decisions (one per context entry,
+        # each decision's variable carrying the entry's name); for values that are not contexts of >= 2 entries it is Svc<k> again
+        if multi_output_parts(v):
+            outs = []
+            for j, (n, x) in enumerate(v["c"]):
+                parts.append('<decision name="Part%d_%d" id="_part%d_%d"><variable name="%s"/><literalExpression><text>%s</text></literalExpression></decision>' % (k, j, k, j, xml_escape(n), xml_escape(feel_literal(x))))
+                outs.append('<outputDecision href="#_part%d_%d"/>' % (k, j))
+            parts.append('<decisionService name="MSvc%d" id="_msvc%d"><variable name="MSvc%d" typeRef="%s"/>%s</decisionService>' % (k, k, k, type_ref, "".join(outs)))
+        else:
+            parts.append('<decisionService name="MSvc%d" id="_msvc%d"><variable name="MSvc%d" typeRef="%s"/><outputDecision href="#_raw%d"/></decisionService>' % (k, k, k, type_ref, k))
     parts.append(
         '<businessKnowledgeModel name="Bkm" id="_bkm"><variable name="Bkm" typeRef="%s"/><encapsulatedLogic>'
         '<formalParameter name="x"/><literalExpression><text>x</text></literalExpression></encapsulatedLogic></businessKnowledgeModel>' % type_ref
